@@ -1,2 +1,3 @@
 import MoreExec.Base.Sys
 import MoreExec.Model.Timeout
+import MoreExec.Props.C09
